@@ -204,6 +204,38 @@ func NewPosixModule() *Mod {
 		Raw: "  extension posix-pattern { argument pattern; }\n"}
 }
 
+// HasIncludeCycle reports whether some submodules include each other (in a
+// circle of any length): such a set is accepted only under the option
+// IgnoreSubmoduleCircularDependencies.
+func (s *Scenario) HasIncludeCycle() bool {
+	state := map[string]int{}
+	var visit func(name string) bool
+	visit = func(name string) bool {
+		switch state[name] {
+		case 1:
+			return true
+		case 2:
+			return false
+		}
+		state[name] = 1
+		if m := s.Mod(name); m != nil && m.IsSub() {
+			for _, i := range m.Includes {
+				if visit(i.Sub) {
+					return true
+				}
+			}
+		}
+		state[name] = 2
+		return false
+	}
+	for _, m := range s.Mods {
+		if m.IsSub() && visit(m.Name) {
+			return true
+		}
+	}
+	return false
+}
+
 // Clone deep-copies a scenario (via JSON; scenarios are small).
 func (s *Scenario) Clone() *Scenario {
 	b, err := json.Marshal(s)
